@@ -93,7 +93,14 @@ func fail(f failure) {
 	} else {
 		res.CorrDisagree++
 	}
-	if len(res.Failures) < maxFailures {
+	// keep oracle failures and correspondence disagreements apart: a flood of one kind must not crowd out the other
+	n := 0
+	for _, g := range res.Failures {
+		if (g.Stream == "oracle") == (f.Stream == "oracle") {
+			n++
+		}
+	}
+	if n < maxFailures/2 {
 		res.Failures = append(res.Failures, f)
 	}
 }
